@@ -94,7 +94,7 @@ def unescape_tla(s):
 
 def run_mc(module, constants, invariants, wd, workers=None, view="View", timeout=3600, xmx="8g",
            init="Init", nxt="Next", extra_cfg="", simulate=None, seed=None, cont=False, env=None,
-           allow_violation=False):
+           allow_violation=False, depth=None):
     """run TLC on spec/<module>.tla with a generated cfg; returns parsed result."""
     cfg = ["CONSTANTS"] + ["  %s = %s" % kv for kv in constants.items()]
     cfg += ["INIT " + init, "NEXT " + nxt]
@@ -109,6 +109,8 @@ def run_mc(module, constants, invariants, wd, workers=None, view="View", timeout
             "-noGenerateSpecTE", "-config", cfgp]
     if cont:
         args = ["-continue"] + args
+    if depth:
+        args = ["-depth", str(depth)] + args
     if simulate:
         args = ["-simulate", simulate] + args
         if seed is not None:
@@ -246,8 +248,15 @@ def validate(event_files, wd, module="TraceQueue", timeout=3600, nodrift=False):
             if m:
                 r["consumed"] = int(m.group(1))
         if r["consumed"] is None:
-            log(out[-3000:])
-            raise ToolError("trace validator did not consume %s (see %s)" % (ef, op))
+            if r["fails"]:
+                # the validator stopped on a state it cannot evaluate AFTER having reported failures (typically a
+                # corrupted raw state): the failures stand, the rest of this shard is not judged
+                r["consumed"] = max(x["line"] for x in r["fails"])
+                r["partial"] = True
+                log("NOTE: validator stopped after line %d of %s (failures reported before that stand)" % (r["consumed"], ef))
+            else:
+                log(out[-3000:])
+                raise ToolError("trace validator did not consume %s (see %s)" % (ef, op))
         return r
     with ThreadPoolExecutor(max_workers=NCPU) as ex:
         return list(ex.map(one, event_files))
